@@ -16,8 +16,8 @@ CHECKS = {
     "C03": ("model_checking", "C03.ready/once/order/lazy/term as invariants of Sched.tla and as monitor clauses on real traces; termination also as TLC liveness (<>Finished under WF) and by running chains 10^3..10^5 deep in the real code.", "4.3, 6"),
     "C04": ("model_checking", "C04.max (every uncompleted reachable task is started and blocked on an unflushed item at each scheduler flush) and C04.count (flushes = longest request chain) on Sched.tla for complete small families x all schedules and on every real trace.", "4.3, 6"),
     "C05": ("model_checking", "C05.once/nonempty/live/prio/items/events on Sched.tla (families over 2-3 kinds, all priority assignments, failing flushes, nested sync) and on every real trace; schedules steered through get_priority().", "4.3, 6"),
-    "C06": ("model_checking", "C06.alt/run/flush/nonasync evaluated on the abstract observable state in Sched.tla and on every real trace (contexts spanning yields, nested, with sync re-entry and failures).", "4.3, 6"),
-    "C07": ("model_checking", "C07.lifo/read/restore on Sched.tla and on real traces with real AsyncScopedValue/async_override contexts.", "4.3, 6"),
+    "C06": ("model_checking", "C06.alt/run/flush/nonasync evaluated on the abstract observable state in Sched.tla and on every real trace (contexts spanning yields, nested, with sync re-entry and failures); C06.timer: asynq.tools.AsyncTimer itself under a virtual clock carried by Sched.tla must report exactly the time the property says the context was active for.", "4.3, 6, 0"),
+    "C07": ("model_checking", "C07.lifo/read/restore on Sched.tla and on real traces with real AsyncScopedValue/async_override contexts; satellite ScopedCall.tla (enumerating oracle + operation-history machine, explored by TLC, every cell/history replayed) for tools.call_with_context around every kind of callee next to reading siblings and for the AsyncScopedValue / async_override API (get, call, set, nested overrides, exits by exception).", "4.3, 6, 14.3"),
     "C08": ("model_checking", "Sessions (several computations on one scheduler, faults, overflow, nested sync) in Sched.tla and in the real code: C08.active/clean on every trace; C08.fresh = the next computation's trace is a behaviour of the fresh-start specification (TraceSched).", "4.3, 6"),
     "C12": ("model_checking", "The deduplicate registry is part of Sched.tla (DedupCall, the completion callback, dirty()); the property's own reference registry lives in the monitor (Obs.tla: C12.share/again/sep); TLC explores programs issuing same/different-key calls in the same yield, in later steps while the first is blocked, between flushes, after completion, with dirty() at every position, under all schedules; real traces validated by the monitor.", "6 (C12)"),
 }
